@@ -101,6 +101,24 @@ def c10_2(rep, ix, R="C10.2"):
     # the caller's text is looked at by the lexer and by nothing else: every use of the text / stream parameter of the API functions and of
     # the pipeline is its hand-over to the stream, lexer or parse call (or, for a file name, to os.path)
     ALLOWED_CONSUMERS = ("InputStream", "FileStream", "blackbirdLexer", "parse", "dirname", "abspath", "realpath", "join", "basename", "fspath", "isinstance", "Path", "str")
+    PATH_ONLY = ("dirname", "abspath", "realpath", "join", "basename", "fspath", "split", "splitext", "isabs", "PurePath")
+
+    def path_helper(hq):
+        """a helper of the package that does nothing with its argument but path arithmetic (os.path functions on a file name)"""
+        h = ix.funcs.get(hq)
+        if h is None:
+            return False
+        hn = getattr(h, "orig", None) or h.node
+        hp = [a.arg for a in hn.args.posonlyargs + hn.args.args]
+        if len(hp) != 1:
+            return False
+        par_ = {}
+        for n_ in ast.walk(hn):
+            for c__ in ast.iter_child_nodes(n_):
+                par_[id(c__)] = n_
+        uses = [n_ for n_ in ast.walk(hn) if isinstance(n_, ast.Name) and n_.id == hp[0] and isinstance(n_.ctx, ast.Load)]
+        return bool(uses) and all(isinstance(par_.get(id(x_)), ast.Call) and x_ in par_[id(x_)].args and u(par_[id(x_)].func).startswith(("os.path.", "posixpath.", "ntpath.")) and
+                                  u(par_[id(x_)].func).split(".")[-1] in PATH_ONLY for x_ in uses)
     for q in sorted({"listener.parse", "__init__.load", "__init__.loads"} | {x for x in pipelines if not ix.funcs[x].cls}):
         if q not in ix.funcs:
             continue
@@ -120,8 +138,10 @@ def c10_2(rep, ix, R="C10.2"):
             # ... or to the helper of the package that builds the lexer / parser (checked itself, as a pipeline)
             if not okuse and isinstance(par, ast.Call) and x in par.args and isinstance(par.func, ast.Name):
                 hq = ix.resolve_name(f.mod, par.func.id)
-                if hq in pipelines or (hq in ix.funcs and var_bound_to_call(ix.funcs[hq].node, "blackbirdLexer")):
+                if hq in pipelines or (hq in ix.funcs and var_bound_to_call(ix.funcs[hq].node, "blackbirdLexer")) or path_helper(hq):
                     okuse = True
+            if not okuse and isinstance(par, ast.Call) and x in par.args and u(par.func).startswith("os.path.") and u(par.func).split(".")[-1] in PATH_ONLY:
+                okuse = True
             if okuse and u(par.func).split(".")[-1] == "str":
                 # str(text) is still the text: what matters is where *that* goes
                 gp = parents.get(id(par))
